@@ -1,6 +1,7 @@
 import Thanos.Common.Parse
 import Thanos.Model.Quorum
 import Thanos.Model.RWv2
+import Thanos.Model.Gate
 /-
   Line-protocol driver of the `receive` family (C22 C23 C24 C25 C26).
   One request per line, one answer per line; every line is self-contained.
@@ -29,6 +30,17 @@ import Thanos.Model.RWv2
       answer     v2.tr:   ok <ts1>* | panic | invalid         ts1 = labels|samples|exemplars|hists,
                           labels = `_` | sym~sym(,…); exemplar labels joined by `.`
                  v2.http: <status> [<samples>/<histograms>/<exemplars> written headers] <ts1>*  | panic
+
+  gate <entry> <cap> <steps>                                                       (C24)
+      entry      h = receiveHTTP | o = receiveOTLPHTTP
+      cap        write.global.max_concurrency (≥ 1)
+      steps      letters joined by `,`:  a  a request arrives (live context)
+                                         x  a request arrives with a cancelled context — executed only
+                                            while the gate is full (in-flight gauge ≥ cap), else skipped
+                                         c  the context of the oldest request blocked at the gate is cancelled
+                                         f  the oldest request inside the write path completes
+      answer     per step `running.waiting.gauge` (after the freed slots were taken by blocked requests),
+                 joined by `,`, then ` p=<panics> max=<most requests inside the write path at once>`
 -/
 open Thanos Thanos.Parse
 
@@ -207,7 +219,35 @@ def v2http (syms : List Sym) (req : List TS2) : String :=
 
 end V2
 
+/-! ### C24 -/
+section GateOps
+open Thanos.Gate
+
+def parseStep : String → Option Ev
+  | "a" => some .arrive
+  | "x" => some .arriveCancelled
+  | "c" => some .cancel
+  | "f" => some .finish
+  | _ => none
+
+def gateRun (doneFirst : Bool) (cap : Nat) (evs : List Ev) : String :=
+  let (s, out) := evs.foldl (fun (acc : Gate.St × List String) e =>
+    let s := acc.1
+    let s' := scriptStep' doneFirst s e
+    (s', acc.2 ++ [s!"{s'.running}.{s'.waiting}.{s'.gauge}"])) (Gate.St.init cap, [])
+  s!"{joinWith "," out} p={s.panics} max={s.maxRunning}"
+
+end GateOps
+
 def handle : List String → String
+  | ["gate", entry, cap, steps] =>
+    match parseNat? cap, (listOf ',' steps).mapM parseStep with
+    | some cap, some evs =>
+      if cap = 0 ∨ evs.isEmpty then "bad-op"
+      else if entry = "h" then gateRun Gate.codeDoneFirstHTTP cap evs
+      else if entry = "o" then gateRun Gate.codeDoneFirstOTLP cap evs
+      else "bad-op"
+    | _, _ => "bad-op"
   | "v2.tr" :: syms :: tss =>
     match parseSyms syms, tss.mapM parseTS2 with
     | some syms, some req => v2tr syms req
